@@ -3,6 +3,8 @@ import DashLive.Model.Aes128
 import DashLive.Model.PlayReady
 import DashLive.Model.ClearKey
 import DashLive.Model.InitRewrite
+import DashLive.Model.WrmHeader
+import DashLive.Gen.WrmHeader
 import DashLive.Driver.Util
 /-! Line-protocol channels of the DRM models (C11, C10).
 
@@ -18,6 +20,8 @@ the token `err`.
 * `licence <kid:key,…> <ids|none> <0|1>` – ids `s:<text>` or `o`
 * `drmsel <string>`, `hdrver <0|1 aesctr> <nkeys>`, `drmctx <version|-> <0|1 aesctr> <nkeys> <string>`,
   `initpsshs <0|1 encrypted> <version|-> <0|1 aesctr> <string> <kids> <pro>`
+* `wrmheader <hv> <sl> <kid:key:alg:computed,…> <default kid> <la|none> <custom|->`, `parsewrm <text>`,
+  `hdrchoice <version|-> <header version|-> <0|1 aesctr> <nkeys>`
 * `initrewrite <tree> <0|1 encrypted> <version|-> <0|1 aesctr> <string> <kids> <pro> <0|1 live>`,
   `parseboxes <container types> <hex>` –
   tree = preorder tokens `L<type>:<payload>` / `N<type>:<nchildren>` joined by `,`
@@ -307,6 +311,69 @@ def parseboxes : List String → Option String
     | some boxes => some (if boxes.isEmpty then "-" else joinWith "," (boxes.flatMap showBox))
   | _ => none
 
+/-! #### WRMHEADER text (templates translated into Gen/WrmHeader.lean) -/
+
+def optText : Option (List Nat) → String
+  | some t => showText t
+  | none => "none"
+
+def parseOptText (s : String) : Option (Option (List Nat)) :=
+  if s == "none" then some none else (parseText s).map some
+
+def parseKeyInfo (s : String) : Option WrmHeader.KeyInfo :=
+  match s.splitOn ":" with
+  | [kid, key, alg, comp] => do
+    some ⟨← parseHex kid, ← parseHex key, ← parseText alg, ← parseBool comp⟩
+  | _ => none
+
+def parseAttr (s : String) : Option (List Nat × List Nat) :=
+  match s.splitOn "~" with
+  | [k, v] => do some (← parseText k, ← parseText v)
+  | _ => none
+
+def parseCustom (s : String) : Option WrmHeader.Custom :=
+  match s.splitOn ":" with
+  | [tag, value, as] => do
+    let attrs ← if as == "-" then some [] else (as.splitOn ";").mapM parseAttr
+    some ⟨← parseText tag, attrs, ← parseText value⟩
+  | _ => none
+
+/-- `wrmheader <hv> <sl> <kid:key:alg:computed,…> <default kid> <la text|none> <custom|->` →
+hex of the bytes `generate_wrmheader` returns -/
+def wrmheader : List String → Option String
+  | [hv, sl, keys, dk, la, custom] => do
+    let hv ← parseNat hv
+    let sl ← parseNat sl
+    let keys ← if keys == "-" then some [] else (keys.splitOn ",").mapM parseKeyInfo
+    let dk ← parseHex dk
+    let la ← parseOptText la
+    let custom ← if custom == "-" then some [] else (custom.splitOn ",").mapM parseCustom
+    match Gen.WrmHeader.template hv, WrmHeader.buildCtx Aes128.enc sl keys dk la custom with
+    | some tmpl, some ctx => some (toHex (PlayReady.wrmBytes (WrmHeader.wrmText tmpl ctx)))
+    | _, _ => some "err"
+  | _ => none
+
+def showKidInfo (k : WrmHeader.KidInfo) : String :=
+  toHex k.value ++ ":" ++ (match k.checksum with | some c => toHex c | none => "none") ++ ":" ++ optText k.algid
+
+/-- `parsewrm <text>` → `version/kids/laUrl` -/
+def parsewrm : List String → Option String
+  | [t] => do
+    match WrmHeader.parseWrmHeader (← parseText t) with
+    | none => some "err"
+    | some i =>
+      some (optText i.version ++ "/" ++ (if i.kids.isEmpty then "-" else joinWith "," (i.kids.map showKidInfo))
+        ++ "/" ++ optText i.laUrl)
+  | _ => none
+
+/-- `hdrchoice <version|-> <header version|-> <0|1 aesctr> <nkeys>` -/
+def hdrchoice : List String → Option String
+  | [v, hv, aes, n] => do
+    match WrmHeader.chooseHeaderVersion (← parseOptNat v) (← parseOptNat hv) (← parseBool aes) (← parseNat n) with
+    | some h => some (toString h)
+    | none => some "err"
+  | _ => none
+
 /-- channels exported to `Main.lean` (collected by harness/gen_main.py) -/
 def channels : List (String × (List String → Option String)) := [
   ("sha256", sha256), ("aes128", aes128), ("leguid", leguid), ("contentkey", contentkey),
@@ -314,6 +381,7 @@ def channels : List (String × (List String → Option String)) := [
   ("utf16dec", utf16dec), ("pssh", pssh), ("decodepssh", decodepssh), ("prpssh", prpssh),
   ("ckpssh", ckpssh), ("b64enc", b64enc), ("b64dec", b64dec), ("licence", licence),
   ("drmsel", drmsel), ("hdrver", hdrver), ("drmctx", drmctx), ("initpsshs", initpsshs),
-  ("initrewrite", initrewrite), ("parseboxes", parseboxes)]
+  ("initrewrite", initrewrite), ("parseboxes", parseboxes),
+  ("wrmheader", wrmheader), ("parsewrm", parsewrm), ("hdrchoice", hdrchoice)]
 
 end DashLive.Driver.Drm
